@@ -20,6 +20,17 @@ CHECKS = {
              'declarative syntax alone. Right level: the validator is a self-contained function with rich case analysis.',
         note='bounded: all strings <= 4 (quick) / <= 5 (thorough, model only) over 21 symbol classes; longer strings '
              'sampled; invalid UTF-8/NUL outside the alphabet; message classes recognised by anchor phrases'),
+    'C18': dict(
+        category='model_checking', design_ref='5 (C18), 3.3 Needs',
+        technique='TLA+ spec Needs.tla (DFS/collectCycle/printing walk vs. declarative Cyclic/IsCyclePath) checked by '
+                  'TLC for every graph and every map order; TLC-dumped graphs replayed into RuleJobNeeds (AST and '
+                  'YAML+Lint); recorded outputs validated by TLC (NeedsTrace.tla) with graph-theoretic predicates',
+        text='TLC shows the algorithm exact and terminating on every graph of the bounded universes for every root '
+             'order; the real rule is run on the same graphs and on random larger ones and each recorded output is '
+             'judged by TLC with the declarative layer only (dangling references, cyclic iff a cycle diag, printed '
+             'path is a simple cycle of the graph, reported at its first job).',
+        note='exhaustive: 3 jobs (ordered lists, dangling, duplicates), 4 jobs (all edge sets); 5..12 jobs random; '
+             'Go map order varied by repetition only; a hang is detected by a 20 s watchdog'),
 }
 
 REASON_NOT_YET = 'check not built yet in this revision of /verif (planned, see DESIGN.md section 5); not claimed'
